@@ -95,6 +95,58 @@ theorem scan_length (t : KRows) : (scan t).length = (t.map (·.2)).sum := by
   | nil => simp [scan]
   | cons e rest ih => obtain ⟨r, c⟩ := e; simp [scan, ih]
 
+/-- storage invariant: one entry per distinct row -/
+def WF (t : KRows) : Prop := (t.map (·.1)).Nodup
+
+theorem card_eq_zero_of_not_mem (t : KRows) (r : Row) (h : r ∉ t.map (·.1)) : card t r = 0 := by
+  induction t with
+  | nil => rfl
+  | cons e rest ih =>
+    obtain ⟨r', c⟩ := e
+    simp only [List.map_cons, List.mem_cons, not_or] at h
+    have : ¬ r' = r := fun e => h.1 e.symm
+    simp [card, this, ih h.2]
+
+/-- **keyless_refines_multiset (scan)**: a full scan shows every row exactly `card` times -/
+theorem scan_count (t : KRows) (h : WF t) (r : Row) : (scan t).count r = card t r := by
+  induction t with
+  | nil => simp [scan, card]
+  | cons e rest ih =>
+    obtain ⟨r', c⟩ := e
+    simp only [WF, List.map_cons, List.nodup_cons] at h
+    have ih' := ih h.2
+    simp only [scan, List.count_append, card, ih']
+    by_cases hr : r' = r
+    · subst hr
+      simp [List.count_replicate, card_eq_zero_of_not_mem rest r' h.1]
+    · have : ¬ (r' == r) = true := by simpa using hr
+      simp [List.count_replicate, hr, this]
+
+theorem map_filter_ne (t : KRows) (r : Row) :
+    (t.filter (fun e => e.1 != r)).map (·.1) = (t.map (·.1)).filter (fun x => x != r) := by
+  induction t with
+  | nil => rfl
+  | cons e rest ih => by_cases he : (e.1 != r) = true <;> simp [List.filter_cons, he, ih]
+
+theorem wf_setCard (t : KRows) (h : WF t) (r : Row) (c : Nat) : WF (setCard r c t) := by
+  unfold WF setCard at *
+  have hf : ((t.filter (fun e => e.1 != r)).map (·.1)).Nodup := by
+    rw [map_filter_ne]
+    exact h.filter _
+  by_cases hc : c = 0
+  · simpa [hc] using hf
+  · simp only [hc, if_false, List.singleton_append, List.map_cons, List.nodup_cons]
+    refine ⟨?_, hf⟩
+    simp [List.mem_map, List.mem_filter]
+
+theorem wf_insert (t : KRows) (h : WF t) (r : Row) : WF (Keyless.insert t r) := wf_setCard t h r _
+
+theorem wf_delete (t : KRows) (h : WF t) (r : Row) : WF (delete t r) := by
+  unfold delete
+  cases card t r with
+  | zero => exact h
+  | succ n => exact wf_setCard t h r n
+
 /-- **keyless_merge_spec**: one side unchanged → the merged multiplicity is base + Δours + Δtheirs
 (written without subtraction) and no conflict; both sides changed (equally or not — dolt treats
 convergent keyless edits as conflicts, merge_rows.go MaybeShortCircuit / computeProllyTreePatches)
